@@ -327,7 +327,7 @@ fn pool_take(n: usize) -> Vec<PoolThread> {
         let (tx, rx) = std::sync::mpsc::channel::<Job>();
         let h = std::thread::Builder::new()
             .name("sim".into())
-            .stack_size(16 << 20)
+            .stack_size(2 << 20)
             .spawn(move || {
                 while let Ok(job) = rx.recv() {
                     job();
@@ -342,8 +342,11 @@ fn pool_take(n: usize) -> Vec<PoolThread> {
     out
 }
 
+/// Simulated threads are not reused across cases: thread-local state of the code under test
+/// (a memo, a cache) must be exactly what this case's own tasks left there, so that a replay in a
+/// fresh process sees the same. (Dropping the sender ends the thread's loop.)
 fn pool_give(threads: Vec<PoolThread>) {
-    POOL.lock().unwrap().extend(threads);
+    drop(threads);
 }
 
 /// Handle given to each simulated thread's body
